@@ -28,6 +28,7 @@ import (
 	"pgregory.net/rapid"
 
 	"verif/harness/internal/ev"
+	"verif/harness/internal/loglevel"
 )
 
 func TestMain(m *testing.M) {
@@ -878,8 +879,8 @@ func execute(c caseSpec, o *oracle) (viol []violation, err error) {
 // ---- generators ------------------------------------------------------------------------
 
 var (
-	methods   = []string{"GET", "POST"}
-	urls      = []string{"h.com/a", "h.com/b", "h.com/a/b"}
+	methods = []string{"GET", "POST"}
+	urls    = []string{"h.com/a", "h.com/b", "h.com/a/b"}
 	// values shared between different parameters, and values holding the separator a naive join would use:
 	// {id:7} / {zzz:7} and {id:"1.x"} / {id:"1", org:"x"} are different keys
 	idValues  = []string{"", "1", "2", "7", "1.x", "x"}
@@ -1114,6 +1115,9 @@ func runProperty(t *testing.T, plugin string, maxOps int) {
 	}()
 	rapid.Check(t, func(t *rapid.T) {
 		c := genCase(t, plugin, maxOps)
+		level := loglevel.Gen().Draw(t, "log level")
+		r.Class("log level " + level)
+		defer loglevel.Set(level)()
 		r.Case()
 		cases++
 		o := newOracle(c)
